@@ -64,6 +64,7 @@ def gen(r, tier, i):
             p['reset_at'] = r.randint(0, 3)      # that invocation's update sets the accumulator to 1000 (names its own updater)
         if r.random() < 0.2:
             p['pair'] = True       # two dictionary ports on one store, update dictionaries built once and reused
+            p['tally'] = r.random() < 0.5   # ... and one dictionary-valued variable (per-key adding updater) through both
         if r.random() < 0.25:
             p['vec'] = True        # an array-valued accumulator of its own (all share one default object)
         if cls == 'weak':
@@ -290,7 +291,10 @@ def check_acc(V, spec, row, present, amounts, T):
             cnt = sum(1 for pid, k in present if pid == p['pid'])
             a = p.get('amount', 1)
             got = row.get('pair', {}).get('p%d' % p['pid'])
-            V.check('accumulator', got == {'x': a * cnt, 'y': 10 * a * cnt, 'g': {'u': a * cnt, 'v': 10 * a * cnt}},
+            exp_pair = {'x': a * cnt, 'y': 10 * a * cnt, 'g': {'u': a * cnt, 'v': 10 * a * cnt}}
+            if p.get('tally'):
+                exp_pair['tally'] = {'a': 4 * a * cnt, 'b': 2 * a * cnt} if cnt else {}
+            V.check('accumulator', got == exp_pair,
                     lambda: ('pair store of process %d at t=%r is %r, %d updates of x+=%r, y+=%r applied' % (p['pid'], T, got, cnt, a, 10 * a)))
         if not p.get('shared_acc'):
             exp = sum(amounts[pid] for pid, k in present if pid == p['pid'])
